@@ -19,6 +19,8 @@ void compareViews(Ctx& ctx, const TreeView& got, const TreeView& expect, unsigne
 void compareSnapshot(Ctx& ctx, const TreeView& v, const Snapshot& before, unsigned kindsMask, const std::string& cls,
                      const std::string& what);
 std::string locate(const TreeView& v, size_t bufIndex, size_t offset);
+// floating-point kernels: expansions and results compared as arrays of double, |a-b| <= tol * (max |expected| of the array)
+void compareViewsTol(Ctx& ctx, const TreeView& got, const TreeView& expect, double tol, const std::string& cls, const std::string& what);
 
 // C12 (ii): bytes changed by one execute(flags) call lie in the call's write set.
 void checkWriteSet(Ctx& ctx, const TreeView& v, const Snapshot& before, int flags);
